@@ -6,7 +6,11 @@
 
    * The C17 clauses are evaluated on the trace's own data only (messages handed over while recording and not
      paused, per data set selection, against the serial numbers found in the files): they do not depend on the
-     model being able to follow the execution.
+     model being able to follow the execution.  They are evaluated PER RECORDING: the final event carries the files
+     of every recording of the collection separately (recs[r].files[d] = the files of data set d written by the
+     r-th start .. stop), and recording r is judged against the messages handed over during recording r.  "Written
+     exactly once" (Duplicated) is judged over all files of a data set, so a message of recording 1 that appears
+     again in a file of recording 2 is a duplicate.
    * The model (DataLogger.tla, WriterOrder as observed) follows the events; the first event it cannot follow, or
      whose observed operation / result / return differs from the prediction, is reported as "drift" and ends the
      following.  lostAt names the model step at which Conservation / FilesComplete first broke (the input class
@@ -23,41 +27,49 @@ Rng(s) == {s[i] : i \in DOMAIN s}
 
 (* ---- the clauses, on the trace alone ---- *)
 Upd == SelectSeq(Traces[tid].ev, LAMBDA e : e.a = "Update" /\ e.t # "None")     \* message id = position
-TExp(d) == LET F[i \in 0..Len(Upd)] == IF i = 0 THEN <<>>
-                                       ELSE IF Upd[i].live /\ Upd[i].t \in Sel(d) THEN Append(F[i - 1], i) ELSE F[i - 1]
-           IN F[Len(Upd)]
+TExp(d, r) == LET F[i \in 0..Len(Upd)] == IF i = 0 THEN <<>>
+                                          ELSE IF Upd[i].live /\ Upd[i].rec = r /\ Upd[i].t \in Sel(d) THEN Append(F[i - 1], i) ELSE F[i - 1]
+              IN F[Len(Upd)]
 RECURSIVE FlatSeq(_)
 FlatSeq(ss) == IF ss = <<>> THEN <<>> ELSE ss[1] \o FlatSeq(Tail(ss))
-Obs(fe, d) == FlatSeq(fe.files[d])
+NRecs(fe) == Len(fe.recs)
+Judged(fe, r) == DOMAIN fe.recs[r].files \ Rng(fe.recs[r].badds)   \* a data set with an unreadable file is judged by FileUnreadable only
+AllDs(fe) == UNION {DOMAIN fe.recs[r].files : r \in 1..NRecs(fe)}
+Obs(fe, d, r) == FlatSeq(fe.recs[r].files[d])
+ObsAll(fe, d) == FlatSeq([r \in 1..NRecs(fe) |-> IF d \in Judged(fe, r) THEN Obs(fe, d, r) ELSE <<>>])   \* all recordings, in order
+RD(fe) == {<<r, d>> \in (1..NRecs(fe)) \X AllDs(fe) : d \in Judged(fe, r)}
 
 FileClauses(fe) ==
-  LET D == DOMAIN fe.files \ Rng(fe.badds) IN     \* a data set with an unreadable file is judged by FileUnreadable only
-     (IF \E d \in D : \E i \in Rng(TExp(d)) : i \notin Rng(Obs(fe, d)) THEN {"C17.Lost"} ELSE {})
-\cup (IF \E d \in D : \E i, j \in DOMAIN Obs(fe, d) : i < j /\ Obs(fe, d)[i] = Obs(fe, d)[j] THEN {"C17.Duplicated"} ELSE {})
-\cup (IF \E d \in D : \E i, j \in DOMAIN Obs(fe, d) : /\ i < j /\ Obs(fe, d)[i] > Obs(fe, d)[j]
-                                                      /\ Obs(fe, d)[i] \in Rng(TExp(d)) /\ Obs(fe, d)[j] \in Rng(TExp(d))
+     (IF \E x \in RD(fe) : \E i \in Rng(TExp(x[2], x[1])) : i \notin Rng(Obs(fe, x[2], x[1])) THEN {"C17.Lost"} ELSE {})
+\cup (IF \E d \in AllDs(fe) : \E i, j \in DOMAIN ObsAll(fe, d) : i < j /\ ObsAll(fe, d)[i] = ObsAll(fe, d)[j] THEN {"C17.Duplicated"} ELSE {})
+\cup (IF \E x \in RD(fe) : LET o == Obs(fe, x[2], x[1])  e == Rng(TExp(x[2], x[1]))
+                            IN \E i, j \in DOMAIN o : i < j /\ o[i] > o[j] /\ o[i] \in e /\ o[j] \in e
       THEN {"C17.Reordered"} ELSE {})
-\cup (IF \E d \in D : \E i \in Rng(Obs(fe, d)) : i \in 1..Len(Upd) /\ Upd[i].t \notin Sel(d) THEN {"C17.WrongDataSet"} ELSE {})
+\cup (IF \E x \in RD(fe) : \E i \in Rng(Obs(fe, x[2], x[1])) : i \in 1..Len(Upd) /\ Upd[i].t \notin Sel(x[2]) THEN {"C17.WrongDataSet"} ELSE {})
 \cup {"C17.FileUnreadable(" \o fe.unread[i] \o ")" : i \in DOMAIN fe.unread}
 \cup (IF fe.hang THEN {"C17.StopHangs"} ELSE {})
 
-ExtraInFile(fe) == \E d \in DOMAIN fe.files : \E i \in Rng(Obs(fe, d)) : i \in 1..Len(Upd) /\ Upd[i].t \in Sel(d) /\ ~Upd[i].live
+\* in a file of recording r: a message of the data set's selection that was handed over while paused / stopped / during another recording
+ExtraInFile(fe) == \E x \in RD(fe) : \E i \in Rng(Obs(fe, x[2], x[1])) :
+                      i \in 1..Len(Upd) /\ Upd[i].t \in Sel(x[2]) /\ ~(Upd[i].live /\ Upd[i].rec = x[1])
 
 (* ---- predictions of the model for the pending operation of a thread ---- *)
 Other(which) == IF which = "clear" THEN "set" ELSE "clear"
 EvOf(which) == IF which = "clear" THEN "w2d" ELSE "fin"
 PredR ==
-  CASE rpc = "u_isset" -> [op |-> "is_set", ev |-> "w2d", res |-> w2d, ret |-> w2d, stutter |-> FALSE]
+  CASE rpc = "u_isset" -> IF H THEN [op |-> "is_set", ev |-> "fin", res |-> fin, ret |-> ~fin, stutter |-> FALSE]
+                          ELSE [op |-> "is_set", ev |-> "w2d", res |-> w2d, ret |-> w2d, stutter |-> FALSE]
     [] rpc = "u_clearfin" -> [op |-> "clear", ev |-> "fin", res |-> FALSE, ret |-> FALSE, stutter |-> FALSE]
     [] rpc = "u_setw2d" -> [op |-> "set", ev |-> "w2d", res |-> FALSE, ret |-> TRUE, stutter |-> FALSE]
     [] rpc = "s_isset" -> [op |-> "is_set", ev |-> "w2d", res |-> w2d, ret |-> FALSE, stutter |-> FALSE]
-    [] rpc = "s_wait" -> [op |-> "wait", ev |-> "fin", res |-> fin, ret |-> FALSE, stutter |-> ~fin]
+    [] rpc = "s_wait" -> [op |-> "wait", ev |-> "fin", res |-> fin, ret |-> H /\ fin, stutter |-> ~fin]
     [] rpc = "s_clearw2d" -> [op |-> "clear", ev |-> "w2d", res |-> FALSE, ret |-> FALSE, stutter |-> FALSE]
     [] rpc = "s_clearfin" -> [op |-> "clear", ev |-> "fin", res |-> FALSE, ret |-> TRUE, stutter |-> FALSE]
     [] rpc = "c_join" -> [op |-> "join", ev |-> "W", res |-> FALSE, ret |-> TRUE, stutter |-> FALSE]
     [] OTHER -> [op |-> "none", ev |-> "", res |-> FALSE, ret |-> FALSE, stutter |-> FALSE]
 PredW ==
   CASE wpc = "wait" -> [op |-> "wait", ev |-> "w2d", res |-> w2d, ret |-> ~w2d /\ closing, stutter |-> ~w2d /\ ~closing]
+    [] wpc = "io" -> [op |-> "io", ev |-> DsSeq[wix], res |-> FALSE, ret |-> FALSE, stutter |-> FALSE]
     [] wpc = "w_a" -> [op |-> WFirst, ev |-> EvOf(WFirst), res |-> FALSE, ret |-> FALSE, stutter |-> FALSE]
     [] wpc = "w_b" -> [op |-> Other(WFirst), ev |-> EvOf(Other(WFirst)), res |-> FALSE, ret |-> closing, stutter |-> FALSE]
     [] OTHER -> [op |-> "none", ev |-> "", res |-> FALSE, ret |-> FALSE, stutter |-> FALSE]
@@ -67,9 +79,10 @@ SameOp(e, p) == e.op = p.op /\ e.ev = p.ev /\ e.res = p.res /\ e.ret = p.ret /\ 
 
 CallGuard(e) ==
   /\ rpc = "idle" /\ e.exc = ""
-  /\ CASE e.a = "Start" -> phase = "new"
+  /\ CASE e.a = "Start" -> (phase = "new" \/ stopped) /\ rec < MaxRec /\ e.rec = rec + 1
        [] e.a = "Tick" -> recording
-       [] e.a = "Update" -> recording /\ (e.t # "None" => e.id = Len(arr) + 1 /\ e.live = ~paused)
+       [] e.a = "Update" -> /\ recording \/ (stopped /\ rec < MaxRec)
+                            /\ e.t # "None" => e.id = Len(arr) + 1 /\ e.live = (recording /\ ~paused) /\ e.rec = rec
        [] e.a = "Pause" -> recording /\ ~paused
        [] e.a = "Resume" -> recording /\ paused
        [] e.a = "Stop" -> recording
@@ -84,7 +97,9 @@ CallAct(e) ==
     [] e.a = "Stop" -> RStop
     [] e.a = "Close" -> RClose
 
-ModelFiles(d) == [i \in 1..Len(files[d]) |-> files[d][i].msgs]
+ModelFiles(d, r) == [i \in 1..Len(FilesOf(d, r)) |-> FilesOf(d, r)[i].msgs]
+FilesDiffer(fe) == \/ NRecs(fe) # rec
+                   \/ \E r \in 1..rec : \E d \in DOMAIN fe.recs[r].files : fe.recs[r].files[d] # ModelFiles(d, r)
 Broken == ~(Conservation /\ FilesComplete)
 Out(r) == PrintT("VERDICT " \o ToJson(r))
 Verdict(b, la, step) == Out([tid |-> Traces[tid].tid, res |-> IF b = {} THEN "ok" ELSE "fail", step |-> step, props |-> b, lostAt |-> la])
@@ -95,7 +110,7 @@ TInit == Init /\ tid \in 1..Len(Traces) /\ l = 1 /\ st = "run" /\ bad = {} /\ lo
 Finish(followed) ==
   LET fe == Ev(NEv)
       cl == FileClauses(fe)
-      dr == IF followed /\ cl = {} /\ (ExtraInFile(fe) \/ ~stopped \/ \E d \in DOMAIN fe.files : fe.files[d] # ModelFiles(d))
+      dr == IF followed /\ cl = {} /\ (ExtraInFile(fe) \/ ~stopped \/ FilesDiffer(fe))
             THEN {<<NEv, "drift">>} ELSE {}
       b == bad \cup {<<NEv, c>> : c \in cl} \cup dr
   IN /\ bad' = b /\ st' = "done" /\ l' = NEv
@@ -109,7 +124,7 @@ Drift ==   \* the model cannot follow event l: record it, judge the files, stop
      /\ Verdict(b, lostAt, l)
      /\ UNCHANGED <<vars, tid, l, lostAt>>
 
-Track(label) == lostAt' = IF lostAt = "" /\ Broken' THEN label ELSE lostAt
+Track(label) == lostAt' = IF lostAt = "" /\ Broken' THEN label \o (IF rec' > 1 THEN "@restart" ELSE "") ELSE lostAt
 
 TNext ==
   /\ st = "run" /\ UNCHANGED tid
